@@ -307,7 +307,7 @@ pub fn run_one(spec: &RunSpec, shm: &Shm) -> (ChildEnd, Vec<u16>) {
             let cpu = spec.scenario.cpu_limit_s(spec.property);
             let lim = libc::rlimit { rlim_cur: cpu, rlim_max: cpu + 2 };
             libc::setrlimit(libc::RLIMIT_CPU, &lim);
-            libc::alarm((cpu * 6).max(60) as u32); // wall-clock backstop
+            libc::alarm((cpu * 40).max(600) as u32); // wall-clock backstop (generous: a loaded machine must not look like a hang)
             let me = libc::getpid();
             let sandbox = sandbox_base().join(format!("{me}"));
             let _ = std::fs::remove_dir_all(&sandbox);
